@@ -100,7 +100,7 @@ func init() {
 	register("C03", func(env *Env) error {
 		wrapCase = func(t string) string { return "(KScript " + t + ")" }
 		defer func() { wrapCase = nil }()
-		env.Header = hsHeader + "Hs.Builder Corr.Builder Corr.C03."
+		env.Header = hsHeader + "Hs.ClientBuilder Hs.Builder Corr.Builder Corr.Interop Corr.C03."
 		if runBuilderCases(env, true) {
 			return nil
 		}
@@ -110,9 +110,22 @@ func init() {
 			env.Add(c.coq(), c)
 			return nil
 		}
+		if replayInterop(env, "C03") {
+			return nil
+		}
+		if env.Replay == "" {
+			// a real client against a real server
+			defer addInteropCases(env, func(c *interopCase) {
+				env.Add(c.coq(), c)
+				env.Count("both-real-roles:" + c.Conf.Kind + ":" + c.Out)
+				if c.SrvEst && c.Out == "ret:established" {
+					env.NonTrivial("interop/" + c.Conf.Name + "/" + c.Oracle.Name + "/" + c.CConf.Name + fmt.Sprint(c.Ident))
+				}
+			})
+		}
 		if env.Replay == "" {
 			defer func() {
-				env.Header = hsHeader + "Hs.Builder Corr.Builder Corr.C03."
+				env.Header = hsHeader + "Hs.ClientBuilder Hs.Builder Corr.Builder Corr.Interop Corr.C03."
 				runBuilderCases(env, false)
 				// a peer that sends one envelope and vanishes at once, on every transport: no session may come of it
 				for _, kind := range []string{"inproc", "tcp", "ws"} {
@@ -155,24 +168,7 @@ func init() {
 		if env.Replay == "" {
 			defer addOptionsCases(env)
 		}
-		var ri interopCase
-		if ok, _ := env.ReplayDesc(&ri); ok && ri.Interop {
-			env.Header = hsHeader + "Hs.ClientBuilder Hs.Builder Corr.Builder Corr.Interop Corr.C09."
-			var srv *scriptServer
-			if ri.Built != "" {
-				for _, spec := range builtSpecs {
-					if spec.name == ri.Built {
-						srv = newBuiltServer(spec, true)
-					}
-				}
-			}
-			if srv == nil {
-				srv = newScriptServer(ri.Conf, ri.Oracle)
-			}
-			defer srv.Close()
-			c := srv.runInterop(ri.CConf, ri.Ident)
-			c.Built = ri.Built
-			env.Add(c.coq(), c)
+		if replayInterop(env, "C09") {
 			return nil
 		}
 		if env.Replay == "" {
@@ -181,7 +177,7 @@ func init() {
 				env.Add(c.coq(), c)
 				env.Count("both-real-roles:" + c.Conf.Kind + ":" + c.Out)
 				if c.SrvEst && c.Out == "ret:established" {
-					env.NonTrivial("interop/" + c.Conf.Name + "/" + c.Oracle.Name + "/" + c.CConf.Name)
+					env.NonTrivial("interop/" + c.Conf.Name + "/" + c.Oracle.Name + "/" + c.CConf.Name + fmt.Sprint(c.Ident))
 				}
 			})
 		}
